@@ -115,19 +115,29 @@ Proof. exact best_child_is_max. Qed.
 
 (* ---- the directory route agrees with the session route ---- *)
 Theorem C11_routes_agree : forall (classes : list search_class) (uf : bool) (specs : list fit_spec),
-  (forall s, In s specs -> spec_ok classes s) ->
-  NoDup (flat_map ids_of (map write_fit specs)) ->
+  (forall s, In s specs -> healthy s = true -> spec_ok classes s) ->
+  NoDup (flat_map ids_of (map write_fit (filter healthy specs))) ->
   exists db,
     scrape classes uf false (map write_fit specs) [] = Loaded db /\
     NoDup (map r_id db) /\
-    (forall s, In s specs ->
+    (forall s, In s specs -> healthy s = true ->
        exists r, In r db /\ r_id r = fs_id s /\ folder_name (write_fit s) = fs_id s /\
                  same_fit r (direct_row s) = true) /\
     (forall r, In r db -> r_name r <> None ->
-       exists s, In s specs /\ same_fit r (direct_row s) = true).
+       exists s, In s specs /\ healthy s = true /\ same_fit r (direct_row s) = true).
 Proof. exact routes_agree. Qed.
+
+(* ---- a fit whose pre-fit output (save_all) was interrupted at ANY point, with or without a truncated
+   file, changes nothing: the directory loads exactly as if that fit were not there (metadata is
+   written last, so the folder is no search output).  `healthy s` = s was not interrupted inside save_all *)
+Theorem C11_prefit_interrupted_harmless :
+  forall (classes : list search_class) (uf co : bool) (specs : list fit_spec) (db : list row),
+  scrape classes uf co (map write_fit specs) db
+  = scrape classes uf co (map write_fit (filter healthy specs)) db.
+Proof. exact prefit_interrupted_harmless. Qed.
 
 Print Assumptions C11_all_searches_partial.
 Print Assumptions C11_lossless.
 Print Assumptions C11_grid_fixed.
 Print Assumptions C11_routes_agree.
+Print Assumptions C11_prefit_interrupted_harmless.
